@@ -61,6 +61,7 @@ func checkC18() int {
 			add("corpus", ct[k])
 		}
 	}
+	forced := map[int]bool{} // cases whose parse verdict is known by construction (must fail)
 	gcs := genCases(c, c.pick(40, 600), 18, nil)
 	r1 := map[string]typing.VKind{}
 	for _, pc := range gcs {
@@ -76,6 +77,23 @@ func checkC18() int {
 		if r.Intn(3) == 0 {
 			add("edit", gen.EditText(r, pc.Text, 1+r.Intn(2)))
 		}
+		if r.Intn(2) == 0 {
+			// ungrammatical by construction: a character outside the alphabet, at a declaration
+			// boundary, at the very end, or anywhere
+			t := pc.Text
+			ill := illegalRunes[r.Intn(len(illegalRunes))]
+			pos := len(t)
+			switch r.Intn(3) {
+			case 0:
+				if i := strings.LastIndex(t, "\nprc["); i >= 0 {
+					pos = i + 1
+				}
+			case 1:
+				pos = r.Intn(len(t) + 1)
+			}
+			forced[len(cases)] = true
+			add("illegal-rune", t[:pos]+ill+"\n"+t[pos:])
+		}
 	}
 	// expected verdicts
 	jobs := make([]sup.Job, len(cases))
@@ -89,6 +107,9 @@ func checkC18() int {
 		}
 		cc.parseOK, cc.tcOK = o.Res.ParseOK, o.Res.TcOK
 		cc.known = true
+		if forced[i] {
+			cc.parseOK, cc.tcOK = false, false
+		}
 		if k, ok := r1[cc.text]; ok && cc.parseOK {
 			if k == typing.Unknown || (k == typing.Accept) != cc.tcOK {
 				cc.known = false // a C07 matter
